@@ -131,6 +131,7 @@ def shards(tier, seed):
     items.sort(key=lambda it: -(it.get("ways", 0) ** 3 if it["what"] == "explore" else 1))
     for i in range(2 if tier == "quick" else 8):
         items.append({"what": "machine", "n": 60 if tier == "quick" else 800, "seed": seed * 1000 + 900 + i})
+    items.append({"what": "partial"})
     return items
 
 
@@ -139,6 +140,8 @@ def run_shard(item, stats):
         from vf import machines
         return machines.machine_search(machines.cache_machine(stats, ('resident',), 'eviction', True), stats, item["n"], item["seed"])
     km = core.known_matcher(ID, globals().get("known_match"))
+    if item["what"] == "partial":
+        return core.run_cases((dict(c, kind="wiring") for c in cachehist.partial_fill_cases()), check, stats, km)
     if item["what"] == "explore":
         try:
             explore(item["repl"], item["ways"], stats)
